@@ -1,6 +1,7 @@
 use crate::framework::Check;
 
 pub mod c01;
+pub mod c03;
 pub mod c04;
 pub mod c06;
 pub mod c07;
@@ -10,5 +11,5 @@ pub mod c10;
 pub mod c14;
 
 pub fn all() -> Vec<&'static dyn Check> {
-    vec![&c01::C01, &c04::C04, &c06::C06, &c07::C07, &c08::C08, &c09::C09, &c10::C10, &c14::C14]
+    vec![&c01::C01, &c03::C03, &c04::C04, &c06::C06, &c07::C07, &c08::C08, &c09::C09, &c10::C10, &c14::C14]
 }
